@@ -111,11 +111,17 @@ def disco_case(rng, with_past=False):
 
 def cli_case(rng):
     k = rng.randint(0, 7)
+    # treebanks in which the degrees of the trees and the degrees of the nodes are different sets (no continuous sentence at
+    # all; one sentence of degree 2 with nodes of degree 1 inside) as well as ordinary mixtures
+    alldisc = rng.random() < 0.4
+    if alldisc:
+        k = rng.randint(1, 3)
     ts = []
     text = ""
     for i in range(k):
-        t = treegen.gen_tree(rng, treegen.Cfg(n_min=1, n_max=7, p_disc=0.5, none_fields=False, labels=treegen.PLAIN_LABELS,
-                                              words=["a", "b", "cc", "Haus"], punct_words=[",", "."], edges=["HD", "--"]))
+        cfg = treegen.Cfg(n_min=5 if alldisc else 1, n_max=10 if alldisc else 7, p_disc=0.9 if alldisc else 0.5, none_fields=False,
+                          labels=treegen.PLAIN_LABELS, words=["a", "b", "cc", "Haus"], punct_words=[",", "."], edges=["HD", "--"])
+        t = treegen.gen_tree(rng, cfg)
         t.data['sid'] = i + 1
         s = io.StringIO()
         treeoutput.export(clone_sid(t), s)
@@ -183,7 +189,7 @@ def gen(seed, tier, scale):
         rng = case_rng(seed, ID, idx)
         yield idx, disco_case(rng, with_past=True)
         idx += 1
-    ncli = (24 if tier == "quick" else 300) * scale
+    ncli = (60 if tier == "quick" else 600) * scale
     rngs = [case_rng(seed, ID, idx + i) for i in range(ncli)]
     for i, c in enumerate(cli.pmap(cli_case, rngs)):
         yield idx + i, c
